@@ -100,6 +100,7 @@ func corrWop(o *Out, op Op, kind string, plain bool, v *Val, pre []byte, m BufMo
 	line := "wop " + opTokens(op) + " " + v.String()
 	begin(line + " kind=" + kind)
 	class, app, pc, msg := goWop(op, kind, plain, v, pre, m)
+	begin("")
 	out := class
 	if class == "ok" {
 		p := ""
@@ -124,6 +125,7 @@ func corrRop(o *Out, op Op, kind string, plain bool, data []byte, m BufMode) Rop
 	line := "rop " + opTokens(op) + " " + hexOf(data)
 	begin(line + " kind=" + kind)
 	class, consumed, v, rc, msg := goRop(op, kind, plain, data, m)
+	begin("")
 	out := class
 	if class == "ok" {
 		p := ""
